@@ -146,3 +146,14 @@ def big_timeline(rng, regime, n):
     out = [list(s) for s in segs]
     rng.shuffle(out)
     return out
+
+
+def decimal_copies(rng, cases, count, pred=lambda c: True):
+    """copies of sampled K0 cases re-read on the decimal grid D1 (one tick = 0.1 s: non-dyadic doubles)"""
+    pool = [c for c in cases if c.get("regime") == "K0" and pred(c)]
+    out = []
+    for _ in range(min(count, len(pool))):
+        d = dict(rng.choice(pool))
+        d["regime"] = "D1"
+        out.append(d)
+    return out
